@@ -1034,7 +1034,10 @@ where
 
     fn scan_opt_unknown_marker(&mut self) -> Result<bool, Self::Error> {
         match self.iter.peek() {
-            Some(token) if token.as_ref() == "\\#" => Ok(true),
+            Some(token) if token.as_ref() == "\\#" => {
+                self.iter.next();
+                Ok(true)
+            }
             _ => Ok(false),
         }
     }
